@@ -2,3 +2,4 @@
 -- with the transcribed package decoders (Model/Codec/Pkg.lean)
 import Dblib.Props.C11.Abstract
 import Dblib.Props.C11.Concrete
+import Dblib.Props.C11.History
